@@ -11,6 +11,7 @@ from .. import common, units_ref as U
 from ..common import violation
 
 POP, KD, FD, PD = 3.29e8, 2100.0, 47.0, 51.0
+CURRENT = [POP, KD, FD, PD]      # the requirement the shared conversions object currently holds (settings histories move it)
 FAMILIES = {
     "abs": ("billion kcals", "thousand tons", "thousand tons"),
     "pct": ("percent people fed", "percent people fed", "percent people fed"),
@@ -85,7 +86,7 @@ def _conv(target):
     def ref(r):
         if r.is_ratio() or any(b not in (U.KCAL_BASES if i == 0 else U.NUTR_BASES) for i, b in enumerate(r.base)):
             return REFUSE
-        f = U.factors(r.base, target, POP, KD, FD, PD)
+        f = U.factors(r.base, target, *CURRENT)
         return Ref(r.n, [[x * fi for x in v] for v, fi in zip(r.vals, f)], target, r.form)
     return ref
 
@@ -493,6 +494,35 @@ def query_product(ex, seeds):
     return n
 
 
+SETTING_HISTORIES = [[(POP, KD, 61.7, 59.5)], [(POP, KD, FD, 59.5), (POP, KD, FD, PD)], [(POP, 1800.0, FD, PD), (POP, KD, 61.7, PD)], [(7.8e9, KD, FD, PD), (POP, KD, FD, PD)]]
+
+
+def settings_histories(ex, seeds):
+    """the requirement is process-wide state: after the exploration above (which converts under the first setting) the setting is
+    re-assigned along short histories that change one or two of (population, kcal, fat, protein) - among them the model's own pair of
+    profiles, which differ in fat and protein only - and after every assignment every conversion of the unary alphabet is applied to
+    every seed and judged against the factors of the CURRENT setting"""
+    n = 0
+    conv = [o for o in ex.unary if o[0].startswith("to_")]
+    try:
+        for hist in SETTING_HISTORIES:
+            done = []
+            for setting in hist:
+                done.append(setting)
+                ex.Food.conversions.set_nutrition_requirements(kcals_daily=setting[1], fat_daily=setting[2], protein_daily=setting[3],
+                                                               include_fat=False, include_protein=False, population=setting[0])
+                CURRENT[:] = list(setting)
+                for name, r in seeds:
+                    f = food_of(ex.Food, r)
+                    for opname, real_fn, ref_fn in conv:
+                        n += 1
+                        ex.step(["settings " + " -> ".join(str(x) for x in done), "seed " + name, opname], opname, real_fn, ref_fn, [f], [r])
+    finally:
+        CURRENT[:] = [POP, KD, FD, PD]
+        ex.Food.conversions.set_nutrition_requirements(kcals_daily=KD, fat_daily=FD, protein_daily=PD, include_fat=False, include_protein=False, population=POP)
+    return n
+
+
 def run(tier, seed):
     ex = Explorer()
     seeds = pool()
@@ -509,11 +539,13 @@ def run(tier, seed):
     nc = constructor_product(ex.Food, ex)
     npred, pred_out = predicate_product(ex.Food, ex, (-1.0, 0.0, 2.0) if tier == "quick" else (-1.0, 0.0, 0.5, 2.0))
     nq = query_product(ex, seeds)
+    nq += settings_histories(ex, seeds)
     cov = {"executions": ex.transitions + nc + npred + nq, "query_and_mixed_shape_cases": nq, "states": states, "transitions": ex.transitions,
            "traces_validated_against_impl": ex.transitions, "distinct_outcomes": states + pred_out,
            "refusals_observed": ex.refusals, "constructor_cases": nc, "predicate_evaluations": npred,
            "bound": bound,
            "alphabet": {"unary": [o[0] for o in ex.unary], "binary": [o[0] for o in ex.binary], "predicates": PREDICATES1 + PREDICATES2, "queries (operand must stay exactly as it was)": QUERIES,
+                        "settings histories": [[list(x) for x in h] for h in SETTING_HISTORIES],
                         "mixed shape": "every comparison on every ordered (single value, series) pair of seeds; replace_if_list_with_zeros_is_zero over every (series, series, replacement) triple of seeds + a number",
                         "seed pool": [n for n, _ in seeds]},
            "samples": [{"history": ["abs:list2:A", "get_month0", "times2"]}, {"history": ["ratio:total:A", "mul(x,y:abs list)"]}],
@@ -531,6 +563,8 @@ def replay(rp):
     names = [n for n, _ in seeds]
     if hist and hist[0].startswith("Food("):
         constructor_product(ex.Food, ex)
+    elif hist and hist[0].startswith("settings "):
+        settings_histories(ex, seeds)
     elif hist and hist[0].startswith("seed ") and len(hist) > 1 and (hist[1].startswith("query ") or "(x, y:" in hist[1] or hist[1].startswith("replace_if")):
         query_product(ex, seeds)
     elif hist and hist[0] in names or (hist and hist[0].startswith("seed ")):
